@@ -7,6 +7,9 @@ CHECKS = {
  "C03": ("runtime round-trip monitor: packet API output checked by an independent strict TLV walker and re-decoded under many segmentations",
          "Every generated (name, optional-field subset, payload split, signer) case is built by MakeData/MakeInterest, verified byte-level by an independent walker (exact lengths, shortest form, field bytes), and decoded contiguously and under 20-150 segmentations per packet; all decoded fields, the signed portion and the standalone Name/Component encoders are compared. ~10^4 (quick) to 10^5 (thorough) packets per run.",
          "Trusted: internal/tlvwalk and its container schema; Interest names without caller-invented ParametersSha256Digest components; nonce/hop-limit within their wire domain.", "5/C03"),
+ "C04": ("sanitizing in sacrificial child processes: recover(), per-call heap-allocation meter, per-call watchdog, RLIMIT_AS, journal-attributed process death; structure-aware mutation of valid encodings",
+         "Every decoder entry point discovered in the tree (all generated model parsers + packet/name readers, through the contiguous and the segmented reader) and the forwarder receive path (stream framing, NDNLP decode/reassembly/PIT-token dispatch with 1/2/8 threads) are fed ~4.5x10^5 (quick) to ~2.7x10^7 (thorough) hostile inputs; a panic, a process death, an allocation above 1 MiB + 256 x input, a call above 2 s / a 20 s hang, or a state change caused by an undecodable frame is a violation.",
+         "Allocation measured through runtime/metrics; socket listeners are exercised through the functions their receive loops call; hooks: fw/face/verif_hooks.go.", "5/C04"),
  "C12": ("runtime monitor: signer input vs parser-reported vs independently computed signed portion; exhaustive/sampled single-bit tampering against decode + matching validator",
          "For every generated signed packet (all shipped signers, Data and Interest variants) the bytes handed to the signer, the signed portion the parser returns (contiguous and segmented) and the spec-defined portion located by an independent walker must be identical, the matching validator and the harness's own crypto must accept; then every single-bit flip inside signed portion / signature value / parameters (all bits of small packets, uniform sample of large ones; ~7x10^5 flips per quick run) must be rejected; wrong parameter digests must be rejected.",
          "Trusted: internal/tlvwalk signed-range computation per NDN packet spec v0.3; Go crypto.", "5/C12"),
